@@ -811,6 +811,60 @@ def reorder_total_rule(ck, fb, rule="C16.reorder"):
             (ck.ok if not skip else lambda r_, w_, t_: ck.violate(r_, w_, t_, "%s:skip" % rule))(rule, f.loc(x), "add_cell: the loop that fills the re-ordered list assigns a slot on every iteration that continues%s" % ("" if not skip else " - an iteration can skip the assignment (continue) and leave an invalid handle in the list"))
 
 
+def hex_structure_rule(ck, fb, rule="C16.structure"):
+    """a topology-checked hexahedral add_cell hands only a hexahedron to the base class (F47)"""
+    from .canon import Canon
+    ck.rule(rule, "HexahedralMeshTopologyKernel::add_cell(halffaces, check): with the check requested, every call of TopologyKernel::add_cell lies under the fact that a predicate over the very list that is handed on holds, and that predicate rejects when a vertex of halfface 2k also lies on halfface 2k+1 (k = 0..2) and unless the six halffaces span eight vertices - check_halfface_ordering only looks at the neighbours of the first two halffaces, and six quads on eight vertices can be closed without being a cube")
+    fs = c11.handle_fns(fb, HEX, "add_cell")
+    if len(fs) != 1:
+        raise AnalysisBroken("anchor vanished: HexahedralMeshTopologyKernel::add_cell(halffaces)")
+    f = fs[0]
+    cn = Canon(f)
+    P = "P%d" % [k for k, p_ in enumerate(f.d["params"]) if p_["t"] == "bool"][0]
+    dl = [(b, i, x) for b, i, x in f.nodes(("call",)) if x.get("pn") == c11.TK + "::add_cell" and b in f.reach()]
+    preds = set()
+    for b, i, x in dl:
+        fs_ = {(s_, p_) for s_, p_, c_ in cn.facts(b)}
+        if (P, False) in fs_:
+            continue
+        L = re.sub(r"^(std::)?move\((.*)\)$", r"\2", cn.s(x["a"][0]))
+        hit = [s_ for s_, p_ in fs_ if p_ is True and re.fullmatch(r"(\w+::)*(\w+)\(%s\)" % re.escape(L), s_) and not s_.startswith("check_halfface_ordering")]
+        (ck.ok if hit else lambda r_, w_, t_: ck.violate(r_, w_, t_, "%s:unchecked" % rule))(rule, f.loc(x), "add_cell: with the check requested the list %s reaches the base class only after a structure predicate on it held (%s)" % (L, hit[:1] or "none besides the ordering test"))
+        for h in hit:
+            preds.add(re.fullmatch(r"(\w+::)*(\w+)\(.*\)", h).group(2))
+    for nm in sorted(preds):
+        gs = [g for g in fb.by_cls.get(HEX, []) if g.name == nm and g.has_cfg]
+        if not gs:
+            ck.cannot_judge("%s: the structure predicate %s is not a member of the hexahedral kernel with a body" % (rule, nm))
+            continue
+        g = gs[0]
+        cg = Canon(g)
+        rej = [(b, x) for b, i, x in g.tops() if x.get("k") == "ret" and cg.s(x.get("x")) in ("false", "0") and b in g.reach()]
+        pair = False
+        for b, x in rej:
+            for s_, p_, c_ in cg.facts(b):
+                if p_ is True and re.search(r"\.count\(.*P0\[\(\(2 \* (it\d+)\(0\)\) \+ 1\)\]", s_):
+                    it = re.search(r"P0\[\(\(2 \* (it\d+)\(0\)\) \+ 1\)\]", s_).group(1)
+                    setname = s_.split(".count(")[0].lstrip("(")
+                    # the set holds the vertices of halfface 2k
+                    vid = [v_ for v_, n_ in cg._name.items() if n_ == setname]
+                    if vid and any("P0[(2 * %s(0))]" % it in cg.s(m["a"][0]) for kind, bb, ii, m in cg.mods.get(vid[0], []) if m.get("a")):
+                        pair = True
+        (ck.ok if pair else lambda r_, w_, t_: ck.violate(r_, w_, t_, "%s:pairs" % rule))(rule, g.where, "%s rejects when a vertex of halfface 2k is also a vertex of halfface 2k+1" % nm)
+        eight = any(x.get("k") == "ret" and re.fullmatch(r"\(8\w* == v\d+\.size\(\)\)|\(v\d+\.size\(\) == 8\w*\)", cg.s(x.get("x"))) for b, i, x in g.tops()) or any(ceq_has(cg, b, "8") for b, x in rej)
+        (ck.ok if eight else lambda r_, w_, t_: ck.violate(r_, w_, t_, "%s:eight" % rule))(rule, g.where, "%s accepts only eight distinct vertices" % nm)
+    if not preds and dl:
+        pass
+
+
+def ceq_has(cg, b, lit):
+    for s_, p_, c_ in cg.facts(b):
+        q = split_eq(s_)
+        if q and lit in (q[1], q[2]) and ".size()" in s_ and ((q[0] == "!=") == bool(p_)):
+            return True
+    return False
+
+
 def a_l(x):
     a = as_assign(x)
     return a[0] if a else x
@@ -882,6 +936,7 @@ def run_c16(ck, fb, fbd):
     from .hexwalk import hexwalk_rule
     hexwalk_rule(ck, fb)
     reorder_total_rule(ck, fb)
+    hex_structure_rule(ck, fb)
     ck.rule("C16.layout", "add_cell(8 vertices): the six vertex quadruples form a closed oriented cube surface (24 directed edges, each once, each reverse once; 8 vertices of degree 3), quadruples 2k and 2k+1 are disjoint, walking the first quadruple's edges meets quadruples 2,4,3,5 in cyclic order, the looked-up quadruples equal the created ones, lookups use find_halfface_extensive, and the halffaces are stored in that order")
     f = [g for g in fb.by_cls.get(HEX, []) if g.name == "add_cell" and g.has_cfg and len(g.d["params"]) == 2 and "VH" in g.d["params"][0]["t"]]
     if not f:
